@@ -56,7 +56,7 @@ def run(cmd, cwd=None, timeout=None, env=None, out=None):
 # ---------------------------------------------------------------------------------------------
 
 INJECT_TMPL = ('\n#[cfg(any(kani, svgbob_verif))]\n#[allow(warnings)]\n#[path = "{path}"]\n'
-               'mod __verif;\n')
+               'pub(crate) mod __verif;\n')
 
 LINTS = ('\n[lints.rust]\nunexpected_cfgs = { level = "allow", check-cfg = '
          "['cfg(kani)', 'cfg(svgbob_verif)'] }\n")
@@ -193,7 +193,7 @@ def parse_kani_output(text):
 
 
 def run_kani(src, harnesses, log, harness_timeout=300, extra=None, overall_timeout=None,
-             jobs=None, unwind=None):
+             jobs=None, unwind=None, thorough=False):
     """Run `cargo kani` on the snapshot for the given fully-qualified harness names."""
     cmd = ["cargo", "kani", "-p", "svgbob", "--lib", "--target-dir", kani_target_dir(),
            "-Z", "stubbing", "-Z", "function-contracts", "-Z", "unstable-options",
@@ -205,7 +205,10 @@ def run_kani(src, harnesses, log, harness_timeout=300, extra=None, overall_timeo
         cmd += extra
     for h in harnesses:
         cmd += ["--harness", h]
-    rc, text, wall = run(cmd, cwd=src, timeout=overall_timeout, out=log)
+    env = {"VERIF_THOROUGH": "1"} if thorough else None
+    if not thorough:
+        ENV.pop("VERIF_THOROUGH", None)
+    rc, text, wall = run(cmd, cwd=src, timeout=overall_timeout, out=log, env=env)
     recs = parse_kani_output(text)
     return rc, text, wall, recs
 
